@@ -90,5 +90,7 @@ class PlayerPositionAndLookPacket(Packet, BitFieldEnum):
         else:
             target.pitch = self.pitch
 
-        target.yaw %= 360
-        target.pitch %= 360
+        # For a tiny negative angle, 'angle % 360' rounds to exactly 360.0;
+        # the second reduction maps that back into the range [0, 360).
+        target.yaw = target.yaw % 360 % 360
+        target.pitch = target.pitch % 360 % 360
